@@ -813,7 +813,7 @@ Section Fold.
       cbn [set_val rt_vals]. rewrite upd_eq.
       unfold pre_set. rewrite Hty. cbn [is_map is_slice orb andb set_fl rt_vals].
       destruct (f_clearref (rt_fl r (o_fid (oc_opt oc)))).
-      + unfold opt_empty. rewrite Hty. cbn [is_func empty_value zero_value set_val rt_vals].
+      + unfold opt_empty, opt_empty_value. rewrite Hty. cbn [is_func empty_value zero_value set_val rt_vals].
         rewrite upd_eq. reflexivity.
       + destruct (rt_vals r (o_fid (oc_opt oc))); reflexivity.
   Qed.
@@ -907,7 +907,7 @@ Section Fold.
     cbn [set_val rt_vals]. rewrite upd_eq.
     unfold pre_set. rewrite Hty. cbn [is_map is_slice orb andb set_fl rt_vals].
     destruct (f_clearref (rt_fl r (o_fid (oc_opt oc)))).
-    - unfold opt_empty. rewrite Hty. cbn [is_func empty_value set_val rt_vals].
+    - unfold opt_empty, opt_empty_value. rewrite Hty. cbn [is_func empty_value set_val rt_vals].
       rewrite upd_eq. reflexivity.
     - destruct (rt_vals r (o_fid (oc_opt oc))); reflexivity.
   Qed.
